@@ -7,11 +7,16 @@
 From Coq Require Import String.
 From Martian Require Import Lib.Bytes Json.Json Mro.Sem Mro.StageSpec Mro.Obs Proofs.Sem.
 
-(* a disabled call delivers null and runs nothing *)
+(* a disabled call runs nothing and delivers null; a disabled mapped call may
+   instead (the latitude stated in the property) deliver a collection of
+   nulls, which is null after the normalisation both sides of the
+   correspondence go through *)
 Theorem C01_disabled_gives_null : forall P Orc pf f E path c,
   is_disabled P pf E c = true ->
-  fst (fst (eval_call P Orc pf (S f) E path c)) = JNull /\
-  snd (eval_call P Orc pf (S f) E path c) = [].
+  nullify (fst (fst (eval_call P Orc pf (S f) E path c))) = JNull /\
+  snd (eval_call P Orc pf (S f) E path c) = [] /\
+  (o_nulls Orc (path ++ [c_id c]) = false \/ c_mapped c = None ->
+   fst (fst (eval_call P Orc pf (S f) E path c)) = JNull).
 Proof. exact disabled_gives_null. Qed.
 Print Assumptions C01_disabled_gives_null.
 
@@ -125,11 +130,11 @@ Definition ex_prog : program :=
         (unhex "50", CPipe {| p_ins := [(unhex "7873", TArr TInt)]; p_outs := [(unhex "7273", TArr (TArr TInt))];
                               p_calls := [{| c_id := unhex "53"; c_callee := unhex "53"; c_mapped := Some MArr;
                                              c_binds := [(unhex "78", (true, ERef (RSelf (unhex "7873")) []))];
-                                             c_disabled := None |}];
+                                             c_disabled := None; c_preflight := false |}];
                               p_ret := [(unhex "7273", ERef (RCall (unhex "53") (Some (unhex "72"))) [])] |})];
      pr_top := {| c_id := unhex "50"; c_callee := unhex "50"; c_mapped := None;
                   c_binds := [(unhex "7873", (false, EArr [ELit (JNum 1 0); ELit (JNum 2 0)]))];
-                  c_disabled := None |} |}.
+                  c_disabled := None; c_preflight := false |} |}.
 Definition ex_spec : spec :=
   [(unhex "53", {| sb_outs := [(unhex "72", SChunkOuts (unhex "6f"))];
                    sb_chunks := ChunksConst [JObj [(unhex "63", JNum 7 0)]; JObj [(unhex "63", JNum 8 0)]];
